@@ -541,6 +541,7 @@ func runC10(tier, replay string) {
 		{name: "forward-goto-7", cfg: flowCfg(7, 4, `{"L"}`, `{"for","ifb","switch","closure"}`, `{"ret","call"}`, `{"fgoto","label"}`, 3)},
 		{name: "for-if-else-break-9", cfg: flowCfg(9, 4, `{"L"}`, `{"for","ifb"}`, `{"ret"}`, `{"break"}`, 2)},
 		{name: "simple-statements-5", cfg: flowCfg(5, 3, `{"L"}`, `{"ifb","for","closure"}`, `{"ret","assign","define","incdec","send","defer","go","var"}`, `{}`, 3)},
+		{name: "clause-trailing-label-9", cfg: flowCfg(9, 4, `{"L"}`, `{"switch","select"}`, `{"ret"}`, `{"fgoto","label"}`, 2)},
 	}
 	if tier == "thorough" {
 		confs = []flowConf{
